@@ -356,6 +356,7 @@ func (w *World) pvFile(nd *Node) string { return filepath.Join(nd.dir, "priv_val
 // StartNode builds a new incarnation of nd from whatever its disk and files hold.
 func (w *World) StartNode(nd *Node) bool {
 	nd.gens++
+	nd.digPrev, nd.digLast = nil, nil // digests never span incarnations
 	inc := &Incarnation{node: nd, gen: nd.gens, peers: map[int]*p2p.Peer{}, delivered: map[string]int{}, deliveredStep: map[string]int{}, claims: map[string]int{}}
 	inc.life = simdisk.NewLife(fmt.Sprintf("n%d.%d", nd.id, nd.gens), nil)
 	nd.inc = inc
